@@ -1,7 +1,7 @@
 (* C05 property theorems.  Nothing but statements closed by `exact`, each followed by Print Assumptions.
    Representation: 0 is the field zero, i in [1,N] (N = q-1) is g^i; val/phi map a representation to the ring. *)
 From Coq Require Import ZArith List.
-From C05 Require Import Model Checker ExtModel GF2Model QadicModel ProofsZech ProofsArr ProofsField ProofsIrred ProofsExt ProofsSweep ProofsGF2 ProofsQadic ProofsProps.
+From C05 Require Import Model Checker ExtModel GF2Model QadicModel ProofsZech ProofsArr ProofsField ProofsIrred ProofsExt ProofsSweep ProofsGF2 ProofsQadic ProofsProps QuotRing ProofsQuot ProofsArrRing.
 Local Open Scope Z_scope.
 
 Theorem C05_zech_macros_are_ring_operations : Zech_ops_stmt.       Proof. exact zech_ops. Qed.
@@ -13,12 +13,12 @@ Print Assumptions C05_representation_bijection_and_cardinality.
 Theorem C05_array_forms_elementwise_all_lengths : forall mun mo plun, array_forms_spec mun mo plun.
 Proof. exact array_forms_ok. Qed.
 Print Assumptions C05_array_forms_elementwise_all_lengths.
-Theorem C05_dotprod_is_the_loop_sum : forall mun plun a b, dotprod_spec mun plun a b.
+Theorem C05_dotprod_model_unrolls_to_the_macro_loop : forall mun plun a b, dotprod_spec mun plun a b.
 Proof. exact dotprod_ok. Qed.
-Print Assumptions C05_dotprod_is_the_loop_sum.
-Theorem C05_array_forms_pre_decrement_loop_refuted : pre_decrement_loop_is_wrong.
+Print Assumptions C05_dotprod_model_unrolls_to_the_macro_loop.
+Theorem C05_array_forms_pre_decrement_loop_refuted_history : pre_decrement_loop_is_wrong.
 Proof. exact pre_decrement_loop_refuted. Qed.
-Print Assumptions C05_array_forms_pre_decrement_loop_refuted.
+Print Assumptions C05_array_forms_pre_decrement_loop_refuted_history.
 (* the reported modulus f is irreducible of degree k over F_p (p prime) and the reported generator has order exactly p^k - 1
    modulo f, whenever the verified checkers (C09 irreducible_b / brute_order, trial-division primality) accept (p,k,f,g);
    fg_ok is evaluated (extracted) on the (f,g) every field of a run reports *)
@@ -28,8 +28,8 @@ Theorem C05_generator_primitive_when_checked : Generator_primitive_stmt.     Pro
 Print Assumptions C05_generator_primitive_when_checked.
 Theorem C05_extension_ops_are_quotient_ring_operations : Ext_ops_stmt.     Proof. exact ext_ops. Qed.
 Print Assumptions C05_extension_ops_are_quotient_ring_operations.
-Theorem C05_field_certificate_evaluated_per_run : Certified_field_stmt.     Proof. exact certified_field. Qed.
-Print Assumptions C05_field_certificate_evaluated_per_run.
+Theorem C05_field_certificate : Certified_field_stmt.     Proof. exact certified_field. Qed.
+Print Assumptions C05_field_certificate.
 Theorem C05_extension_inv_div_partial : Ext_inv_stmt.     Proof. exact ext_inv. Qed.
 Print Assumptions C05_extension_inv_div_partial.
 (* bounded (complete kernel sweep): for every prime power q <= 32 (every modulus, every generator) and every prime field up to
@@ -41,9 +41,9 @@ Print Assumptions C05_builder_tables_accepted_partial.
    arithmetic in F_2; complete case analysis (finite domain) *)
 Theorem C05_gf2_operations_are_F2_arithmetic : GF2_ops_stmt.     Proof. exact gf2_ops. Qed.
 Print Assumptions C05_gf2_operations_are_F2_arithmetic.
-Theorem C05_gf2_overloads_agree : forall code a b c, gf2_op code true a b c = gf2_op code false a b c.
+Theorem C05_gf2_model_has_one_function_per_variant : forall code a b c, gf2_op code true a b c = gf2_op code false a b c.
 Proof. exact gf2_overloads_agree. Qed.
-Print Assumptions C05_gf2_overloads_agree.
+Print Assumptions C05_gf2_model_has_one_function_per_variant.
 (* q-adic transform of GFqExtFast (gfqext.h): REDQ digit extraction, decode of a packed accumulator, delayed reduction up to
    n <= (2^bits-1)/(p-1)/(p-1)/k products; the bound of the source as found (2^bits/...) is refuted *)
 Theorem C05_qadic_redq_residues_are_digits_mod_p : Redq_stmt.     Proof. exact redq_ok. Qed.
@@ -52,5 +52,23 @@ Theorem C05_qadic_init_decodes_packed_polynomial : Qadic_decode_stmt.     Proof.
 Print Assumptions C05_qadic_init_decodes_packed_polynomial.
 Theorem C05_qadic_accumulator_digits_do_not_overflow : Qadic_dot_stmt.     Proof. exact qadic_dot. Qed.
 Print Assumptions C05_qadic_accumulator_digits_do_not_overflow.
-Theorem C05_qadic_maxdot_of_source_refuted : Maxdot_of_source_refuted_stmt.     Proof. exact maxdot_of_source_refuted. Qed.
-Print Assumptions C05_qadic_maxdot_of_source_refuted.
+Theorem C05_qadic_maxdot_of_source_refuted_history : Maxdot_of_source_refuted_stmt.     Proof. exact maxdot_of_source_refuted. Qed.
+Print Assumptions C05_qadic_maxdot_of_source_refuted_history.
+(* phase 4 *)
+(* arrays as locations: every array form, ANY aliasing of its array arguments (the body reads its element operands before it writes
+   r[i]: fix-9) = the call on distinct arrays of the same contents; ring-level meaning of the array forms and of dotprod *)
+Theorem C05_array_forms_any_aliasing : forall mun mo plun, array_forms_aliasing_spec mun mo plun.
+Proof. exact array_forms_aliasing_ok. Qed.
+Print Assumptions C05_array_forms_any_aliasing.
+Theorem C05_array_add_aliased_operand_refuted_history : array_add_aliased_b_refuted.
+Proof. exact array_add_aliased_b_is_wrong. Qed.
+Print Assumptions C05_array_add_aliased_operand_refuted_history.
+Theorem C05_dotprod_and_array_forms_are_ring_operations : Dotprod_ring_stmt.     Proof. exact dotprod_and_arrays_ring. Qed.
+Print Assumptions C05_dotprod_and_array_forms_are_ring_operations.
+(* ONE concrete admissible ring (F_p[X]/(F) on canonical lists over C09's padd/pmul/pmod): commutative ring, p = 0, X is a root of
+   f, 1 <> 0, denotation injective on the coefficient lists of length k; and the ring-level theorem instantiated there: every
+   scalar member function is polynomial arithmetic modulo f on the polynomials of its operands, which determine the representation *)
+Theorem C05_quotient_ring_is_admissible_and_faithful : Admissible_ring_stmt.     Proof. exact admissible_ring. Qed.
+Print Assumptions C05_quotient_ring_is_admissible_and_faithful.
+Theorem C05_field_ops_are_polynomial_arithmetic_mod_f : Field_ops_concrete_stmt.     Proof. exact field_ops_concrete. Qed.
+Print Assumptions C05_field_ops_are_polynomial_arithmetic_mod_f.
